@@ -59,7 +59,8 @@ def main(ctx):
     ctx.audit(GROUP)
     failed = ctx.prove(GROUP, "Props_C34", THEOREMS)
     inputs = ctx.replay_inputs()
-    for profile in ("release", "debug"):
+    profiles = [p for p in os.environ.get("VERIF_PROFILES", "release,debug").split(",") if p in ("release", "debug")]
+    for profile in profiles:   # VERIF_PROFILES=release restricts a development / mutation run to one build
         bindir = ctx.harness(GROUP, profile=profile, bins=["c34"], hooks=False)
         if inputs is None:
             rc, out = vf.sh([os.path.join(bindir, "c34"), "gen", str(ctx.seed), str(ctx.n(600, 30000)), ctx.tier], timeout=600)
